@@ -137,8 +137,9 @@ pub enum Mode {
     Walk,
     /// one round after every operation
     Stepwise,
-    /// two rounds after the history (the deterministic predicate used to localise the culprit)
-    Double,
+    /// the deterministic predicate used to localise the culprit: twice down and up the whole history, comparing at every
+    /// operation boundary with the snapshot recorded there
+    Stairs,
 }
 
 /// Core procedure on one list of operations (no second phase).
@@ -188,7 +189,7 @@ pub fn run_core(doc: &DocM, ops: &[Op], walk: &[u16], mode: Mode) -> Run {
                 }
                 return Run::Failed(f);
             }
-        } else if targets.contains(&(i + 1)) && i + 1 < ops.len() {
+        } else if (mode == Mode::Stairs || targets.contains(&(i + 1))) && i + 1 < ops.len() {
             marks[i + 1] = Some(snapshot::take(st.get_buffer()));
         }
     }
@@ -209,8 +210,35 @@ pub fn run_core(doc: &DocM, ops: &[Op], walk: &[u16], mode: Mode) -> Run {
     let res = (|| {
         let mut mv = Mover { st: &mut st, depth: g, depth_after: &depth_after };
         mv.round(len0, &s0, &s1, "first round")?;
-        if mode == Mode::Double {
-            mv.round(len0, &s0, &s1, "second round")?;
+        if mode == Mode::Stairs {
+            let at = |t: usize| -> Option<(usize, &Snapshot)> {
+                if t == 0 {
+                    Some((0, &s0))
+                } else if t == ops.len() {
+                    Some((g, &s1))
+                } else {
+                    match (&marks[t], depth_after[t - 1]) {
+                        (Some(s), Some(d)) if d <= g => Some((d, s)),
+                        _ => None,
+                    }
+                }
+            };
+            for round in 1..=2 {
+                for t in (0..ops.len()).rev() {
+                    if let Some((d, want)) = at(t) {
+                        mv.go(d)?;
+                        mv.expect(want, true, &format!("descent {round}: undone down to the state after {t} operation(s) (depth {d} of {g})"))?;
+                        mv.expect_len(len0)?;
+                    }
+                }
+                for t in 1..=ops.len() {
+                    if let Some((d, want)) = at(t) {
+                        mv.go(d)?;
+                        mv.expect(want, false, &format!("ascent {round}: redone up to the state after {t} operation(s) (depth {d} of {g})"))?;
+                        mv.expect_len(len0)?;
+                    }
+                }
+            }
         }
         // the walk: visit operation boundaries in the generated order
         for t in &targets {
@@ -340,12 +368,12 @@ pub fn check(c: &Case) -> Verdict {
     Verdict::pass(nt, class)
 }
 
-/// The culprit is the last operation of the shortest prefix that fails the deterministic double round on a fresh editor.
+/// The culprit is the last operation of the shortest prefix that fails the deterministic staircase rounds on a fresh editor.
 /// If no prefix fails on its own (the failure needs the walk, the stepwise rounds or a third pass), the operation that owns
 /// the undo step crossed last is named instead and the key says so.
 fn localise(c: &Case, ops: &[Op], f: Failure) -> Verdict {
     for p in 1..=ops.len() {
-        if let Run::Failed(pf) = run_core(&c.doc, &ops[..p], &[], Mode::Double) {
+        if let Run::Failed(pf) = run_core(&c.doc, &ops[..p], &[], Mode::Stairs) {
             let culprit = &ops[p - 1];
             return Verdict::fail(
                 format!("{}|culprit={}", pf.class, culprit.kind()),
@@ -356,7 +384,8 @@ fn localise(c: &Case, ops: &[Op], f: Failure) -> Verdict {
     let culprit = f.owner.and_then(|i| ops.get(i));
     let kind = culprit.map(|o| o.kind()).unwrap_or_else(|| "?".into());
     Verdict::fail(
-        format!("{}|culprit={}|only_in_{}", f.class, kind, if c.stepwise { "stepwise" } else { "walk" }),
-        format!("no prefix fails the plain double round; owner of the step crossed last: {:?}; {}", culprit, f.msg),
+        // stepwise cases name the operation whose round failed: same meaning as the prefix rule, no suffix
+        format!("{}|culprit={}{}", f.class, kind, if c.stepwise { "" } else { "|only_in_walk" }),
+        format!("no prefix fails the staircase rounds on a fresh editor; owner of the step crossed last: {:?}; {}", culprit, f.msg),
     )
 }
